@@ -185,6 +185,56 @@ def run(chk):
             chk.prove_paths(f"builtins_mock.{name}[{kind}]:GuppyObject->{dunder}();else->builtins.{name}", paths, post, func=f"{BM}:{name}")
             e.ext_models.pop(f"builtins.{name}", None)
 
+    # ---- guppy_object_from_py: a Python constant becomes a value of the type regular mode gives the
+    #      same literal (python_value_to_guppy_type, C17), independently of what was converted before
+    UNP = "guppylang_internals.tracing.unpacking"
+    e.func_info(UNP, "guppy_object_from_py")
+    from .bindings import rec
+    e.ext_models["hugr.std.int.IntVal"] = rec("IntVal")
+    e.ext_models["hugr.std.float.FloatVal"] = rec("FloatVal")
+    e.ext_models["hugr.std.prelude.StringVal"] = rec("StringVal")
+    e.ext_models["hugr.ops.MakeTuple"] = rec("MakeTuple")
+    e.models["guppylang_internals.std._internal.compiler.tket_bool:OpaqueBoolVal"] = lambda it2, a, k: SObj(ClassVal("OpaqueBoolVal"), {"v": a[0]})
+    KIND = {bool: "bool", int: "Int", float: "Float", str: "str"}
+    for seq in ([1, True], [True, 1], [0, False, 0.0], [False, 0], [1.0, 1, True], ["s", 1, 1, True], [(1, True), (True, 1)]):
+        def t(it, seq=seq):
+            from .common import ast_from_source
+            state = SObj(ClassVal("TracingState", builtin=True), {"unused_undroppable_objs": {}, "node": "NODE", "globals": None})
+            e.models["guppylang_internals.tracing.state:get_tracing_state"] = lambda it2, a, k: state
+            frame = SObj(ClassVal("frame", builtin=True), {"f_code": SObj(ClassVal("code", builtin=True), {"co_filename": "user.py"}), "f_lineno": 7})
+            e.models["guppylang_internals.tracing.util:get_calling_frame"] = lambda it2, a, k: frame
+            n = [0]
+
+            def load(v):
+                n[0] += 1
+                return ("WIRE", n[0])
+            builder = SObj(ClassVal("Builder", builtin=True), {"load": Builtin("load", load), "add_op": Builtin("add_op", lambda op, *w: ("NODE", op, w))})
+            f = it.lookup_global(e.module(UNP), "guppy_object_from_py")
+            node = ast_from_source(it, "x", "eval").fields["body"]
+            return [it.call(f, [v, builder, node, None], {}) for v in seq]
+        paths = e.explore(t)
+
+        def tyname(ty):
+            if ty.cls.name == "NumericType":
+                return ty.fields["kind"].name
+            if ty.cls.name == "TupleType":
+                return tuple(tyname(a.fields["ty"]) if a.cls.name == "TypeArg" else tyname(a) for a in ty.fields["args"])
+            if ty.cls.name == "OpaqueType":
+                return ty.fields["defn"].fields.get("name")
+            return ty.cls.name
+
+        def want(v):
+            if isinstance(v, tuple):
+                return tuple(want(x) for x in v)
+            return KIND[type(v)]
+
+        def post(p, seq=seq):
+            if p.kind != "return":
+                return z3.BoolVal(False)
+            got = [tyname(o.fields["_ty"]) for o in p.value]
+            return z3.BoolVal(got == [want(v) for v in seq])
+        chk.prove_paths(f"guppy_object_from_py{seq}:each-constant-gets-the-type-of-its-own-python-value(history-independent)", paths, post,
+                        func=f"{UNP}:guppy_object_from_py")
     chk.expected_min_obligations = 90
     chk.not_covered += ["unpack_guppy_object / guppy_object_from_py structural recursion and trace_call (need the hugr builder)",
                         "that the traced object's method of a given name is the same definition regular mode resolves (both use Globals.get_instance_func)"]
